@@ -14,6 +14,7 @@ import (
 	"strings"
 
 	"github.com/google/pprof/internal/measurement"
+	"github.com/google/pprof/internal/zzverif/vdrv"
 	"github.com/google/pprof/internal/zzverif/vlib"
 	"github.com/google/pprof/profile"
 )
@@ -381,6 +382,45 @@ func harmonise(raw json.RawMessage, c *ucase) {
 	}
 }
 
+// the report's own use of the "minimum" unit: the unit of a report is the one in which its SMALLEST non-zero value
+// (flat, else cum, by magnitude) still reads at least one, so no non-zero value of a report prints as 0
+func reportMinimumUnit() {
+	m := vlib.AMap{Build: "B01", File: "bin", Start: 16, Size: 8}
+	loc := func(name string, rel int64) vlib.ALoc {
+		return vlib.ALoc{Map: m, Rel: rel, Lines: []vlib.ALine{{Fn: vlib.AFn{Name: name, Sys: name, File: name + ".c"}, Line: 1}}}
+	}
+	for _, sign := range []int64{1, -1} {
+		for _, unit := range []string{"nanoseconds", "bytes"} {
+			big, small := int64(10_000_000_000), int64(2_000_000)
+			if unit == "bytes" {
+				big, small = 10<<30, 2<<10
+			}
+			// mid never is a leaf: flat 0; its cum is the small difference of two large values
+			ap := vlib.AProf{ST: []vlib.AVT{{T: "t", U: unit}}, Samples: []vlib.ASample{
+				{Locs: []vlib.ALoc{loc("leafa", 1)}, Vals: []int64{big}},
+				{Locs: []vlib.ALoc{loc("leafb", 2), loc("mid", 4)}, Vals: []int64{-sign * big / 2}},
+				{Locs: []vlib.ALoc{loc("leafc", 3), loc("mid", 4)}, Vals: []int64{sign * (big/2 - small)}},
+			}}
+			p := vlib.NewConc(0).Profile(ap)
+			res := vdrv.Run(vdrv.Opts{Args: []string{"-top", "-functions", "-flat", "-nodefraction=0", "-nodecount=0", "-output=out", "src"},
+				Fetch: func(string) (*profile.Profile, error) { return p.Copy(), nil }})
+			run.Count(fmt.Sprintf("report-minimum|%s|%d", unit, sign))
+			if res.Err != nil || res.Panic != nil {
+				run.Violate("report-unit", "report-unit-error", fmt.Sprint(res.Err, res.Panic), nil, nil)
+				continue
+			}
+			for _, l := range strings.Split(res.File("out"), "\n") {
+				f := strings.Fields(l)
+				if len(f) == 6 && f[5] == "mid" {
+					if f[3] == "0" {
+						run.Violate("report-unit", "minimum-unit-too-coarse", fmt.Sprintf("entry mid has cum %d %s, the smallest magnitude of the report, and is printed as 0:\n%s", -sign*small, unit, res.File("out")), nil, nil)
+					}
+				}
+			}
+		}
+	}
+}
+
 func main() {
 	run = vlib.NewRun("C15")
 	run.EachCase(func(i int, raw json.RawMessage) {
@@ -403,6 +443,7 @@ func main() {
 	})
 	// label monotonicity across every unit boundary of every family (auto mode)
 	monotone()
+	reportMinimumUnit()
 	run.Finish("cases = Units.tla: every alias of every unit x spelling variants (as is, plural, upper, capitalised, upper plural) x every target unit / auto / minimum / unknown target x value classes (0, +-1, 7, MaxInt64, MinInt64, MinInt64+1, and one below / at / one above every unit boundary, negated, 999 x boundary), unknown sources, and every ordered triple of distinct units of a family for harmonisation; non-trivial = distinct (kind, spelling, target, value class)")
 }
 
